@@ -15,7 +15,10 @@ import (
 // instants around the protocol timers (relative offsets in ns)
 var tieOffsets = []int64{-1, 0, 0, 0, 1}
 var grid = []int64{0, 1, 5 * sec, 10*sec - 1, 10 * sec, 10*sec + 1, 15 * sec, 20*sec - 1, 20 * sec, 20*sec + 1, 25 * sec}
-var natWire = []*string{nil, strp(""), strp("unknown"), strp("restricted"), strp("unrestricted"), strp("unrestricted")}
+var natWire = []*string{nil, strp(""), strp("unknown"), strp("restricted"), strp("unrestricted"), strp("unrestricted"),
+	strp("unknown"), strp("restricted"), strp("unrestricted"), strp("unrestricted"),
+	// not NAT types (the three names are lower case): such requests are refused
+	strp("Unrestricted"), strp("RESTRICTED"), strp("bogus")}
 var proxyTypes = []string{"standalone", "webext", "badge", "iptproxy", "", "custom"}
 
 // boundedBound is the response-time bound in fake nanoseconds: the 10 s protocol
